@@ -11,3 +11,17 @@ import SwcVerif.Props.C01Gen
 #print axioms C01.table_roundtrip
 #print axioms C01.comments_roundtrip
 #print axioms C01.reset_restores
+#print axioms RefineWriter.get_v_spec
+#print axioms RefineWriter.to_swc_refines
+#print axioms RefineWriter.swclike_to_swc_refines
+#print axioms RefineWriter.to_swc_eq_writeLines
+#print axioms RefineWriter.swclike_to_swc_eq_writeSwc
+#print axioms C01.generated_to_swc_spec
+#print axioms C01.generated_swclike_spec
+#print axioms C01.generated_lines_eq_model
+#print axioms C01.generated_writer_eq_model
+#print axioms C01.generated_row_roundtrip
+#print axioms C01.generated_table_roundtrip
+#print axioms C01.generated_comments_roundtrip
+#print axioms C01.generated_roundtrip_reset
+#print axioms C01.generated_write_generated_read
